@@ -787,6 +787,19 @@ impl<'tcx> Dumper<'tcx> {
             o.put("trait", J::s(self.path(tr)));
             o.put("method", J::s(tcx.item_name(cdef).as_str()));
         }
+        if let DefKind::Ctor(of, _) = tcx.def_kind(cdef) {
+            // a tuple struct / variant constructor used as a function value
+            let parent = tcx.parent(cdef);
+            let (adt_did, vidx) = match of {
+                rustc_hir::def::CtorOf::Struct => (parent, 0usize),
+                rustc_hir::def::CtorOf::Variant => {
+                    let adt_did = tcx.parent(parent);
+                    let adt = tcx.adt_def(adt_did);
+                    (adt_did, adt.variant_index_with_id(parent).as_usize())
+                }
+            };
+            o.put("ctor", J::obj().set("adt", J::s(self.path(adt_did))).set("variant", J::Int(vidx as i128)));
+        }
         let mut enqueue = |this: &mut Self, d: DefId, a: GenericArgsRef<'tcx>| -> usize {
             if let Some(&i) = inst_ids.get(&(d, a)) {
                 return i;
@@ -936,8 +949,45 @@ impl<'tcx> Dumper<'tcx> {
                         }
                     }
                 }
+                // function items used as values (`map_err(CIError::from)`, `unwrap_or_else(T::infinity)`):
+                // resolved like a call, keyed by the constant's own (path, generic args) text
+                let mut fnitems = Vec::new();
+                {
+                    use rustc_middle::mir::visit::Visitor;
+                    struct FnConsts<'tcx> {
+                        found: Vec<Ty<'tcx>>,
+                    }
+                    impl<'tcx> Visitor<'tcx> for FnConsts<'tcx> {
+                        fn visit_const_operand(&mut self, c: &ConstOperand<'tcx>, _l: Location) {
+                            let t = c.const_.ty();
+                            if let ty::FnDef(..) = t.kind() {
+                                if !self.found.contains(&t) {
+                                    self.found.push(t);
+                                }
+                            }
+                        }
+                    }
+                    let mut v = FnConsts { found: Vec::new() };
+                    for (bb, data) in body.basic_blocks.iter_enumerated() {
+                        if data.is_cleanup {
+                            continue;
+                        }
+                        v.visit_basic_block_data(bb, data);
+                    }
+                    for t in v.found {
+                        if let ty::FnDef(od, oargs) = t.kind() {
+                            let key = format!("{}|{:?}", self.path(*od), oargs);
+                            let fty = tcx.instantiate_and_normalize_erasing_regions(args, tenv, ty::EarlyBinder::bind(t));
+                            if let ty::FnDef(cd, cargs) = fty.kind() {
+                                let cj = self.callee_json(tenv, *cd, cargs, &mut queue, &mut inst_ids);
+                                fnitems.push(J::Arr(vec![J::s(key), cj]));
+                            }
+                        }
+                    }
+                }
                 insts.push(
                     J::obj()
+                        .set("fnitems", J::Arr(fnitems))
                         .set("def", J::Int(self.did(d) as i128))
                         .set("args", J::s(format!("{:?}", args)))
                         .set(
